@@ -465,8 +465,9 @@ Definition hdr_complete (s : state) (t : tid) (otag : Z) : state :=
 (* PHdrRead: one pass of the mock's read loop *)
 Definition step_hdrread (s : state) (t : tid) (otag : Z) (got : nat) (dl : Z) : state :=
   let '(g, sc') := stake (s_now s) (HDRLEN - got) (s_script s) in
-  let s1 := set_consumed (set_script (set_hdr s (overwrite (s_hdr s) got g)) sc') (s_consumed s ++ g) in
   let got' := (got + length g)%nat in
+  let s1 := set_pc (set_consumed (set_script (set_hdr s (overwrite (s_hdr s) got g)) sc') (s_consumed s ++ g))
+                   t (PHdrRead otag got' dl) in
   match read_status (s_now s) dl (HDRLEN - got') sc' with
   | RS_full => hdr_complete s1 t otag
   | RS_eof => hdr_short s1 t otag (Z.of_nat got')
@@ -485,11 +486,12 @@ Definition step_bodyread (s : state) (t : tid) (otag : Z) (targ : tid) (size nee
                    upd_ctx s1b targ (cset_buf (s_ctx s1b targ) (c_buf (s_ctx s1b targ) ++ g))
             end in
   let need' := (need - length g)%nat in
+  let s3 := set_pc s2 t (PBodyRead otag targ size need' dl) in
   match read_status (s_now s) dl need' sc' with
-  | RS_full => body_end s2 t otag targ size (Z.of_nat size)
-  | RS_eof => body_end s2 t otag targ size (Z.of_nat (size - need'))
-  | RS_timeout => body_end (set_errno s2 ETIMEDOUT) t otag targ size (-1)
-  | RS_block w => sleep s2 t w (PBodySleep otag targ size need' dl)
+  | RS_full => body_end s3 t otag targ size (Z.of_nat size)
+  | RS_eof => body_end s3 t otag targ size (Z.of_nat (size - need'))
+  | RS_timeout => body_end (set_errno s3 ETIMEDOUT) t otag targ size (-1)
+  | RS_block w => sleep s3 t w (PBodySleep otag targ size need' dl)
   end.
 
 (* ---- one micro step of thread t (which must be READY) ----------------------------------------- *)
